@@ -85,10 +85,12 @@ func (t *Tracer) TimeToken(tm time.Time) int {
 	return int(d / time.Second)
 }
 
-func (t *Tracer) Emit(e map[string]interface{}) {
+func (t *Tracer) Emit(e map[string]interface{}) int {
 	t.mu.Lock()
 	defer t.mu.Unlock()
 	t.seq++
+	seq := t.seq
+	defer func() { _ = seq }()
 	e["seq"] = t.seq
 	e["sc"] = t.sc
 	b, err := json.Marshal(e)
@@ -97,6 +99,7 @@ func (t *Tracer) Emit(e map[string]interface{}) {
 	}
 	t.w.Write(b)
 	t.w.WriteByte('\n')
+	return seq
 }
 
 func (t *Tracer) Flush() {
